@@ -20,11 +20,19 @@ cands = re.findall(r'(src/[\w/]*(?:mod|lib)\.rs)', modtxt)
 modfile = cands[0] if cands else 'src/lib.rs'
 mm = re.search(r'mod\s+(seeded_demo_\w+)', modtxt)
 modname = mm.group(1) if mm else 'seeded_demo_1'
-# demo location: sibling of modfile (mod.rs / lib.rs)
+pathattr = ''
+pm = re.search(r'#\[path\s*=\s*"([^"]+)"\]', modtxt)
+if pm:
+    # child module of a non-mod file: `#[path = ".."] mod x;` appended to the END of the named source file
+    tm = re.search(r'END of (src/[\w/]+\.rs)', modtxt)
+    if tm:
+        modfile = tm.group(1)
+        pathattr = '#[path = "%s"]\n' % pm.group(1)
+# demo location: sibling of modfile
 ddir = os.path.dirname(modfile)
 open(os.path.join(wt, ddir, modname + '.rs'), 'w').write(open(os.path.join(chg, 'demo.rs')).read())
 with open(os.path.join(wt, modfile), 'a') as f:
-    f.write('\n#[cfg(test)]\nmod %s;\n' % modname)
+    f.write('\n#[cfg(test)]\n%smod %s;\n' % (pathattr, modname))
 res = {'modfile': modfile, 'modname': modname}
 r = sh('cargo test --offline --lib %s 2>&1 | tail -15' % modname, timeout=3600)
 res['demo_without_change'] = r.stdout[-1500:]
